@@ -849,6 +849,7 @@ T_SUBJECTS = [
     _t("<#frag>", "iri", ["IRI", BASE + "#frag"], "base", "base-fragment-or-path"),
     _t("</abs>", "iri", ["IRI", "http://base.org/abs"], "base", "base-fragment-or-path"),
     _t("<urn:ex:a>", "iri", ["IRI", "urn:ex:a"], "non-http-iri"),
+    _t("<https://ex.org/s9>", "iri", ["IRI", "https://ex.org/s9"]),
 ]
 T_PREDICATES = [
     _t("ex:p", "pname", NS_EX + "p"),
@@ -857,12 +858,16 @@ T_PREDICATES = [
     _t("rdf:type", "pname", RDF_TYPE),
     _t(":q", "pname", NS_DEF + "q"),
     _t("<rp>", "iri", BASE + "rp", "base"),
+    _t("<https://ex.org/p9>", "iri", "https://ex.org/p9"),
 ]
 T_LITERALS = [
     _lit('"x"', "plain", "x", XSD_STRING),
     _lit('""', "plain", "", XSD_STRING, "empty-literal"),
     _lit('"say \\"hi\\""', "plain", 'say "hi"', XSD_STRING, "escaped-quote"),
     _lit('"a\\\\"', "plain", "a\\", XSD_STRING, "ends-with-escaped-backslash"),
+    _lit('"\\\\"', "plain", "\\", XSD_STRING, "ends-with-escaped-backslash"),               # the literal is ONE escaped backslash
+    _lit('"\\\\\\\\"', "plain", "\\\\", XSD_STRING, "ends-with-escaped-backslash"),   # two escaped backslashes
+    _lit('"\\\\"@en', "lang", "\\", RDF_LANGSTRING, "lang", "ends-with-escaped-backslash"),
     _lit('"x # y"', "plain", "x # y", XSD_STRING, "hash-in-literal"),
     _lit('"a;b"', "plain", "a;b", XSD_STRING),
     _lit('"c , d ."', "plain", "c , d .", XSD_STRING),
@@ -884,6 +889,7 @@ T_OBJECTS = [
     _t("<#f2>", "iri", ["IRI", BASE + "#f2"], "base", "base-fragment-or-path"),
     _t("</abs2>", "iri", ["IRI", "http://base.org/abs2"], "base", "base-fragment-or-path"),
     _t("<urn:ex:b>", "iri", ["IRI", "urn:ex:b"], "non-http-iri"),
+    _t("<https://ex.org/o9>", "iri", ["IRI", "https://ex.org/o9"]),
 ] + T_LITERALS
 
 
@@ -1215,6 +1221,8 @@ def ttl_term_cases():
     for s in SUBJ:
         for p in PRED:
             yield one(s, p, "<http://ex.org/o2>", False)
+            if SUBJ[s]["kind"] == "iri" or PRED[p]["kind"] == "iri":
+                yield one(s, p, "<http://ex.org/o2>", True)      # absolute <...> terms with @base in force
     for o in OBJ:
         for base in (False, True):
             yield one("<http://ex.org/s1>", "<http://ex.org/p>", o, base)
